@@ -23,10 +23,14 @@
 (*   WaitInit    Halt waits for the first iteration BEFORE it closes quit  *)
 (*               (TRUE, the code) / after (FALSE: depth 1 is cancelled and *)
 (*               Halt returns nothing)                                     *)
+(*   LockLate    Halt takes the handle mutex only to read the stored PV,   *)
+(*               AFTER waiting for the first iteration (TRUE, the code) /  *)
+(*               before waiting (FALSE: the search goroutine needs the     *)
+(*               mutex to store depth 1 - neither ever gets on)            *)
 (***************************************************************************)
 EXTENDS Integers, Sequences, FiniteSets, TimeControl
 
-CONSTANTS MaxDepth, Limit, MateAt, Callers, StoreFirst, WaitInit
+CONSTANTS MaxDepth, Limit, MateAt, Callers, StoreFirst, WaitInit, LockLate
 
 VARIABLES spc,        \* search goroutine: "run" | "store" | "publish" | "decide" | "exit"
           depth,      \* depth being searched / just searched
@@ -37,56 +41,61 @@ VARIABLES spc,        \* search goroutine: "run" | "store" | "publish" | "decide
           closed,     \* PV channel closed
           hpc,        \* per caller: "idle" | "wait" | "quitting" | "done"
           ret,        \* per caller: depth returned by Halt
-          seenAtCall  \* per caller: highest depth published when Halt was requested
+          seenAtCall, \* per caller: highest depth published when Halt was requested
+          mu          \* the handle mutex: 0 (free) or the caller holding it (the search goroutine holds it only inside Store)
 
-vars == <<spc, depth, hpv, slot, stream, init, quit, canc, closed, hpc, ret, seenAtCall>>
+vars == <<spc, depth, hpv, slot, stream, init, quit, canc, closed, hpc, ret, seenAtCall, mu>>
 
 Init == /\ spc = "run" /\ depth = 1 /\ hpv = 0 /\ slot = 0 /\ stream = <<>>
         /\ init = FALSE /\ quit = FALSE /\ canc = FALSE /\ closed = FALSE
-        /\ hpc = [c \in Callers |-> "idle"] /\ ret = [c \in Callers |-> 0] /\ seenAtCall = [c \in Callers |-> 0]
+        /\ hpc = [c \in Callers |-> "idle"] /\ ret = [c \in Callers |-> 0] /\ seenAtCall = [c \in Callers |-> 0] /\ mu = 0
 
 MaxPublished == IF stream = <<>> THEN 0 ELSE stream[Len(stream)]
 
 \* the root search of the current depth returns normally
 SearchDone == /\ spc = "run" /\ ~canc /\ depth <= MaxDepth
               /\ spc' = (IF StoreFirst THEN "store" ELSE "publish")
-              /\ UNCHANGED <<depth, hpv, slot, stream, init, quit, canc, closed, hpc, ret, seenAtCall>>
+              /\ UNCHANGED <<depth, hpv, slot, stream, init, quit, canc, closed, hpc, ret, seenAtCall, mu>>
 \* ... or observes the cancelled context: the goroutine exits (deferred: close channel, close init)
 SearchHalted == /\ spc = "run" /\ canc
                 /\ spc' = "exit" /\ closed' = TRUE /\ init' = TRUE
-                /\ UNCHANGED <<depth, hpv, slot, stream, quit, canc, hpc, ret, seenAtCall>>
-Store == /\ spc = "store" /\ hpv' = depth /\ spc' = (IF StoreFirst THEN "publish" ELSE "decide")
-         /\ UNCHANGED <<depth, slot, stream, init, quit, canc, closed, hpc, ret, seenAtCall>>
+                /\ UNCHANGED <<depth, hpv, slot, stream, quit, canc, hpc, ret, seenAtCall, mu>>
+Store == /\ spc = "store" /\ mu = 0 /\ hpv' = depth /\ spc' = (IF StoreFirst THEN "publish" ELSE "decide")
+         /\ UNCHANGED <<depth, slot, stream, init, quit, canc, closed, hpc, ret, seenAtCall, mu>>
 Publish == /\ spc = "publish" /\ slot' = depth /\ stream' = Append(stream, depth) /\ init' = TRUE
            /\ spc' = (IF StoreFirst THEN "decide" ELSE "store")
-           /\ UNCHANGED <<depth, hpv, quit, canc, closed, hpc, ret, seenAtCall>>
+           /\ UNCHANGED <<depth, hpv, quit, canc, closed, hpc, ret, seenAtCall, mu>>
 Decide == /\ spc = "decide"
           /\ IF (Limit # 0 /\ depth = Limit) \/ (MateAt # 0 /\ depth >= MateAt) \/ quit
              THEN spc' = "exit" /\ closed' = TRUE /\ UNCHANGED depth
              ELSE spc' = "run" /\ depth' = depth + 1 /\ UNCHANGED closed
-          /\ UNCHANGED <<hpv, slot, stream, init, quit, canc, hpc, ret, seenAtCall>>
+          /\ UNCHANGED <<hpv, slot, stream, init, quit, canc, hpc, ret, seenAtCall, mu>>
 \* a consumer takes the latest PV
 Consume == /\ slot # 0 /\ slot' = 0
-           /\ UNCHANGED <<spc, depth, hpv, stream, init, quit, canc, closed, hpc, ret, seenAtCall>>
+           /\ UNCHANGED <<spc, depth, hpv, stream, init, quit, canc, closed, hpc, ret, seenAtCall, mu>>
 \* the helper goroutine delivers the cancellation
 CancelDeliver == /\ quit /\ ~canc /\ canc' = TRUE
-                 /\ UNCHANGED <<spc, depth, hpv, slot, stream, init, quit, closed, hpc, ret, seenAtCall>>
+                 /\ UNCHANGED <<spc, depth, hpv, slot, stream, init, quit, closed, hpc, ret, seenAtCall, mu>>
 
-HaltCall(c) == /\ hpc[c] = "idle" /\ hpc' = [hpc EXCEPT ![c] = "wait"]
+HaltCall(c) == /\ hpc[c] = "idle" /\ hpc' = [hpc EXCEPT ![c] = IF LockLate THEN "wait" ELSE "lock"]
                /\ seenAtCall' = [seenAtCall EXCEPT ![c] = MaxPublished]
-               /\ UNCHANGED <<spc, depth, hpv, slot, stream, init, quit, canc, closed, ret>>
+               /\ UNCHANGED <<spc, depth, hpv, slot, stream, init, quit, canc, closed, ret, mu>>
+\* (only with LockLate = FALSE) the mutex is taken first and held across the wait
+HaltLock(c) == /\ hpc[c] = "lock" /\ mu = 0 /\ mu' = c /\ hpc' = [hpc EXCEPT ![c] = "wait"]
+               /\ UNCHANGED <<spc, depth, hpv, slot, stream, init, quit, canc, closed, ret, seenAtCall>>
 HaltQuit(c) == /\ hpc[c] = "wait" /\ (WaitInit => init)
                /\ quit' = TRUE /\ hpc' = [hpc EXCEPT ![c] = "quitting"]
-               /\ UNCHANGED <<spc, depth, hpv, slot, stream, init, canc, closed, ret, seenAtCall>>
+               /\ UNCHANGED <<spc, depth, hpv, slot, stream, init, canc, closed, ret, seenAtCall, mu>>
 HaltReturn(c) == /\ hpc[c] = "quitting" /\ init
+                 /\ IF LockLate THEN mu = 0 /\ UNCHANGED mu ELSE mu = c /\ mu' = 0
                  /\ ret' = [ret EXCEPT ![c] = hpv] /\ hpc' = [hpc EXCEPT ![c] = "done"]
                  /\ UNCHANGED <<spc, depth, hpv, slot, stream, init, quit, canc, closed, seenAtCall>>
 
 Next == SearchDone \/ SearchHalted \/ Store \/ Publish \/ Decide \/ Consume \/ CancelDeliver
-        \/ \E c \in Callers : HaltCall(c) \/ HaltQuit(c) \/ HaltReturn(c)
+        \/ \E c \in Callers : HaltCall(c) \/ HaltLock(c) \/ HaltQuit(c) \/ HaltReturn(c)
 Spec == Init /\ [][Next]_vars
 FairSpec == Spec /\ WF_vars(SearchDone \/ SearchHalted \/ Store \/ Publish \/ Decide) /\ WF_vars(CancelDeliver)
-                 /\ \A c \in Callers : WF_vars(HaltQuit(c) \/ HaltReturn(c))
+                 /\ \A c \in Callers : WF_vars(HaltLock(c) \/ HaltQuit(c) \/ HaltReturn(c))
 
 \* depths are reported in increasing order 1, 2, 3, ...
 StreamInOrder == \A i \in 1..Len(stream) : stream[i] = i
@@ -103,6 +112,6 @@ HaltAtLeastReported == \A c \in Callers : hpc[c] = "done" => ret[c] >= seenAtCal
 HaltReturnsCompleted == \A c \in Callers : hpc[c] = "done" => ret[c] <= hpv
 \* otherwise it runs until halted; a halted search exits (under fairness)
 HaltedExits == quit ~> (spc = "exit")
-HaltReturnsEventually == \A c \in Callers : (hpc[c] = "wait") ~> (hpc[c] = "done")
+HaltReturnsEventually == \A c \in Callers : (hpc[c] \in {"lock", "wait"}) ~> (hpc[c] = "done")
 
 =============================================================================
